@@ -99,6 +99,19 @@ def _conv(stmts: List[ast.stmt], repl) -> Tuple[List[ast.stmt], bool]:
         if isinstance(st, ast.Raise):
             out.append(st)
             return out, True
+        if isinstance(st, ast.Try) and _contains_return(st) and not st.finalbody and not any(_contains_return(x) for x in st.body) \
+                and not any(_contains_return(x) for x in st.orelse) and st.handlers:
+            # `try: B except …: <terminates>` followed by REST  ≡  `try: B except …: … else: REST`
+            hs = []
+            all_term = True
+            for h in st.handlers:
+                hb, ht = _conv(h.body, repl)
+                hs.append(ast.ExceptHandler(type=h.type, name=h.name, body=hb or [ast.Pass()]))
+                all_term = all_term and ht
+            if all_term:
+                r, rt = _conv(stmts[i + 1:], repl)
+                out.append(ast.Try(body=st.body, handlers=hs, orelse=list(st.orelse) + r, finalbody=[]))
+                return out, rt
         if _contains_return(st):
             raise NotInlinable("return inside %s" % type(st).__name__)
         out.append(st)
@@ -520,6 +533,13 @@ class Inliner:
                 stmts[i:i + 1] = replaced
                 i += len(replaced)
                 continue
+            # `if TEST(helper(...)): BODY` where the helper returns only True/False: the test is folded into each return
+            # point of the inlined helper (so no flag variable is introduced)
+            if isinstance(st, ast.If):
+                rep_ = self._expand_bool_helper_if(st, fn, fq, cls)
+                if rep_ is not None:
+                    stmts[i:i + 1] = rep_
+                    continue
             # `for T in gen(...): BODY` over an unknown generator helper of the simple producer form
             if isinstance(st, ast.For) and not st.orelse and isinstance(st.iter, ast.Call):
                 rep_ = self._expand_generator_loop(st, fn, fq, cls)
@@ -559,6 +579,87 @@ class Inliner:
             for h in getattr(st, "handlers", []) or []:
                 self._block(h.body, fn, fq, cls)
             i += 1
+
+    def _expand_bool_helper_if(self, ifst: ast.If, fn, fq, cls) -> Optional[List[ast.stmt]]:
+        hc = self._first_evaluated_helper_call(ifst.test, fn, fq, cls)
+        if hc is None:
+            return None
+        call, (callee, cfq, recv) = hc
+        rets = [r for r in _walk_no_defs(callee) if isinstance(r, ast.Return)]
+        if not rets or not all(isinstance(r.value, ast.Constant) and isinstance(r.value.value, bool) for r in rets):
+            return None
+        simple = (ast.Return, ast.Continue, ast.Break, ast.Pass)
+        if not all(isinstance(x, simple) for x in ifst.body + ifst.orelse):
+            return None     # the continuation is duplicated into the helper's return points: keep it trivial
+
+        def fold(e, val):
+            """Value of the test with the helper call replaced by the constant `val`: a bool or a residual expression."""
+            if e is call:
+                return val
+            if isinstance(e, ast.UnaryOp) and isinstance(e.op, ast.Not):
+                v = fold(e.operand, val)
+                return (not v) if isinstance(v, bool) else ast.UnaryOp(op=ast.Not(), operand=v)
+            if isinstance(e, ast.BoolOp):
+                vals = [fold(x, val) for x in e.values]
+                is_and = isinstance(e.op, ast.And)
+                rest = []
+                for v in vals:
+                    if isinstance(v, bool):
+                        if v != is_and:       # False in `and` / True in `or` decides
+                            return v if not rest else (ast.BoolOp(op=e.op, values=rest + [ast.Constant(value=v)]))
+                        continue
+                    rest.append(v)
+                if not rest:
+                    return is_and
+                return rest[0] if len(rest) == 1 else ast.BoolOp(op=e.op, values=rest)
+            return copy.deepcopy(e)
+
+        def cont(ret: ast.Return) -> List[ast.stmt]:
+            v = fold(ifst.test, ret.value.value)
+            if isinstance(v, bool):
+                return [copy.deepcopy(x) for x in (ifst.body if v else ifst.orelse)]
+            return [ast.If(test=v, body=[copy.deepcopy(x) for x in ifst.body], orelse=[copy.deepcopy(x) for x in ifst.orelse])]
+        try:
+            mapping = self._bind(callee, call, recv, fn)
+        except NotInlinable:
+            return None
+        assigned = _assigned(callee)
+        caller_names = _names(fn)
+        self._k += 1
+        pre: List[ast.stmt] = []
+        subst: Dict[str, ast.expr] = {}
+        rename: Dict[str, str] = {}
+        for p_, a in mapping.items():
+            if p_ in assigned or not _simple(a):
+                nm = p_ if p_ not in caller_names else "%s__h%d" % (p_, self._k)
+                pre.append(ast.Assign(targets=[ast.Name(id=nm, ctx=ast.Store())], value=copy.deepcopy(a)))
+                if nm != p_:
+                    rename[p_] = nm
+            else:
+                subst[p_] = a
+        for loc in assigned:
+            if loc not in mapping and loc in caller_names:
+                rename[loc] = "%s__h%d" % (loc, self._k)
+        body = copy.deepcopy(_body_wo_doc(callee))
+        # the continuation is the caller's code: substitute the helper's names first, then splice it in
+        tr = _Subst(subst, rename)
+        body = [tr.visit(b) for b in body]
+        marker = []
+
+        def repl(ret: ast.Return) -> List[ast.stmt]:
+            return cont(ret)
+        # returns were deep-copied: evaluate `cont` on the copies (their values are still the constants)
+        try:
+            new, _term = _conv(body, repl)
+        except NotInlinable:
+            return None
+        out = pre + new
+        for s_ in out:
+            ast.copy_location(s_, ifst)
+            ast.fix_missing_locations(s_)
+        self.inlined.add(cfq)
+        self.count += 1
+        return out
 
     def _expand_generator_loop(self, loop: ast.For, fn, fq, cls) -> Optional[List[ast.stmt]]:
         """`for T in g(a): BODY` where g is `<pre>; while/for …: …; yield E` (the yield is the last statement of g's
@@ -678,6 +779,14 @@ class Inliner:
                 visit(x.right)
             elif isinstance(x, ast.UnaryOp):
                 visit(x.operand)
+            elif isinstance(x, ast.BoolOp):
+                visit(x.values[0])          # only the first operand is evaluated unconditionally
+                if found[0] is None:
+                    blocked[0] = True
+            elif isinstance(x, ast.Compare):
+                visit(x.left)
+                if found[0] is None:
+                    blocked[0] = True
             elif isinstance(x, (ast.Tuple, ast.List)):
                 for el in x.elts:
                     visit(el)
